@@ -42,6 +42,9 @@ def run(ctx: Ctx):
     from .common import generic_lints
 
     generic_lints(ctx)
+    from .common import type_resolution_table
+
+    type_resolution_table(ctx)
     from .common import value_any_lint
 
     # "has subtrahends" is a question about the LENGTH of the index collection: any() / np.any() ask whether some offset is
